@@ -4,16 +4,17 @@
    A shape is  container/header variant x a sequence of grammar items (events with their delta, MUS
    score events, XMI chunks/events) x a finisher (truncation point, declared-length class, FF as the
    last byte, unterminated variable-length quantity, ...) x the song number selected before the load.
-   TLC enumerates every shape up to MaxItems items, concretises it to bytes (Bytes) and runs the model
+   TLC enumerates every shape up to DepthTrk / DepthMus / DepthXmi items, concretises it to bytes (Bytes) and runs the model
    (Loader!Load) on it.
 
    Two uses:
    * Repaired = TRUE, INVARIANT SafeInv: the loaders WITH the suggested guards have no hazard left on
      any shape of the scope (model checking proper).
-   * Repaired = FALSE, EmitOn = TRUE, INVARIANT EmitInv: the loaders as they are; every finished shape is printed as a
-     SHAPE line (bytes + predicted outcome) and replayed on the real library by lib/gen_loader.py /
-     harness/drive_loader; the hazards of the as-is model are the candidate defects (INVARIANT SafeInv
-     on this configuration is expected to be violated and is reported as a model-level finding). *)
+   * Repaired = FALSE, EmitOn = TRUE, INVARIANT EmitInv: the loaders as they are; every finished shape is
+     printed as a SHAPE line (bytes + predicted outcome) and replayed on the real library by
+     lib/gen_loader.py / harness/drive_loader.  The hazards the as-is model predicts are the candidate
+     defects; they are counted by lib/checks_loader.py (INVARIANT SafeInv on this configuration is violated
+     by construction, which is why it is not declared there). *)
 EXTENDS Loader, Json, TLC
 CONSTANTS Fams,       \* subset of {"trk", "mus", "xmi", "misc"}
           DepthTrk, DepthMus, DepthXmi,   \* items per shape
